@@ -43,6 +43,34 @@ def run(tier):
         for b in bad[:40]:
             row = byid[b]
             verdict.disagree(classify(row, ex.get(b)), {"program": S.slim(row), "sem": ex.get(b)})
+    # G: TLC-enumerated small programs (ProgGen.tla): every template alone, and sequences of templates
+    g_cases = []
+    g_states = 0
+    for cfg in (["ProgGen_1.cfg", "ProgGen_2s.cfg"] if tier == "quick" else ["ProgGen_1.cfg", "ProgGen_2.cfg", "ProgGen_3s.cfg"]):
+        g = C.run_tlc("ProgGen", cfg, workers=8 if tier == "quick" else 14, timeout=6000, coverage=False, tlc_seed=C.seed())
+        got = [json.loads(x) for x in C.tlc_prints(g.out, "CASE")]
+        if len(got) * 2 != g.distinct:
+            raise C.ToolError("ProgGen %s: %d cases for %d states" % (cfg, len(got), g.distinct))
+        g_states += g.distinct
+        g_cases += got
+    gp, go = os.path.join(wd, "g_cases.ndjson"), os.path.join(wd, "g_out.ndjson")
+    C.ndjson_write(gp, [{"id": "g%d" % i, "ast": c["ast"]} for i, c in enumerate(g_cases)])
+    C.run_vh(["replay", "sem", gp, go], timeout=3000)
+    gouts = {o["id"]: o for o in C.ndjson_read(go)}
+    g_skipped = 0
+    for i, c in enumerate(g_cases):
+        o = gouts["g%d" % i]
+        if c["kind"] == "spec_domain":
+            g_skipped += 1
+            continue
+        if o["err"]["kind"] == "panic":
+            verdict.disagree({"engine": "G", "kind": "panic"}, {"program": S.slim(o), "templates": c["ix"], "wrapped": c["wrap"]})
+        elif o["err"]["kind"] != c["kind"]:
+            verdict.disagree({"engine": "G", "kind": "outcome", "sem": c["kind"] or "ok", "real": o["err"]["kind"] or "ok"},
+                             {"program": S.slim(o), "templates": c["ix"], "wrapped": c["wrap"], "sem": {"out": c["out"], "kind": c["kind"]}})
+        elif json.dumps(o["out"], sort_keys=True) != json.dumps(c["out"], sort_keys=True):
+            verdict.disagree({"engine": "G", "kind": "transcript", "outcome": c["kind"] or "ok"},
+                             {"program": S.slim(o), "templates": c["ix"], "wrapped": c["wrap"], "sem": {"out": c["out"], "kind": c["kind"]}})
     judged = stats["n"] - stats["skipped"]
     failing = sum(v for k, v in meta["kinds"].items() if k)
     other = meta["kinds"].get("other", 0)
@@ -51,8 +79,9 @@ def run(tier):
     rc = verdict.finish()
     sample = rows[len(rows) // 3]
     C.write_evidence(PROP, tier, "model_checking", {
-        "states": states, "transitions": states,
-        "traces_validated_against_impl": judged,
+        "states": states + g_states, "transitions": states + g_states,
+        "traces_validated_against_impl": judged + len(g_cases) - g_skipped,
+        "tlc_generated_programs": len(g_cases), "tlc_generated_failing": sum(1 for c in g_cases if c["kind"]),
         "samples": [{"src": sample["src"], "out": sample["out"][:5], "err": sample["err"]}],
         "evaluations": n, "distinct_nontrivial": len({r["src"] for r in rows if len(r["out"]) >= 1}),
         "rule": "seeded type-aware generator (harness/src/engines/sem/gen.rs): %d programs of 3..%d top-level statement "
